@@ -173,13 +173,14 @@ def is_extbase(b):
 class Explorer:
     """explores one body; `purity` is a Purity oracle (see models.py) or None"""
 
-    def __init__(self, facts, body, purity=None, inline=True, opaque=(), expand=()):
+    def __init__(self, facts, body, purity=None, inline=True, opaque=(), expand=(), atomic=()):
         self.facts = facts
         self.body = body
         self.purity = purity
         self.inline = inline
         self.opaque = set(opaque)       # callee names never inlined
         self.expand = set(expand)       # anchor functions a rule asks to see through (expanded path by path although they are named)
+        self.atomic = set(atomic)       # field names whose loads through a pointer are atoms (stores on the path are not forwarded to them)
         self.paths = []
         self.loops = body.loops()
         self.loop_havoc = {h: self._loop_writes(blocks) for h, blocks in self.loops.items()}
@@ -371,6 +372,11 @@ class Explorer:
     def load(self, st, fr, loc):
         kbase, kpath = self.key(loc)
         base, path = loc[0], loc[1]
+        if self.atomic and base[0] == 'ext' and path and path[-1][0] == 'f' and path[-1][1] in self.atomic:
+            v = self.base_value(st, fr, base)
+            for e in path:
+                v = self.project(v, e)
+            return v
         mem = st.mem
         if (kbase, kpath) in mem:
             v = mem[(kbase, kpath)]
@@ -829,6 +835,252 @@ class Explorer:
 
     OPTION_COMBINATORS = re.compile(r'^std::option::Option::<T>::(map|map_or|and_then|is_some_and|is_none_or)$')
 
+    # ------------------------------------------------------------ models of std combinators (fork + concrete evaluation)
+    ORD_T = 'std::cmp::Ordering'
+    STD_MODELS = re.compile(
+        r'^(std::option::Option::<T>::(map_or_else|filter|or_else|unwrap_or_else|or|and|zip|unwrap_or|xor)|'
+        r'std::bool::<impl bool>::(then|then_some)|'
+        r'std::cmp::Ordering::(is_gt|is_lt|is_ge|is_le|is_eq|is_ne|reverse|then|then_with)|'
+        r'std::cmp::(PartialOrd|Ord)::(partial_cmp|cmp)|<f(32|64) as std::cmp::PartialOrd>::partial_cmp)$')
+    SCALAR_TYS = ('F', 'T', 'f32', 'f64', 'i32', 'i64', 'u32', 'u64', 'usize', 'isize', 'u8')
+
+    @staticmethod
+    def _ord(name):
+        return ('c', ('enum', 'std::cmp::Ordering', name))
+
+    @staticmethod
+    def _ord_name(v):
+        x = strip_upd(v)
+        while x[0] in ('deref', 'refval') and len(x) > 1 and strip_upd(x[1])[0] in ('refval', 'c', 'agg', 'deref'):
+            x = strip_upd(x[1])
+        if x[0] == 'c' and isinstance(x[1], tuple) and x[1][0] == 'enum' and x[1][1].endswith('Ordering'):
+            return x[1][2]
+        if x[0] == 'agg' and x[1] == 'adt' and x[5].endswith('Ordering') and not x[4]:
+            return x[2]
+        return None
+
+    @staticmethod
+    def _some(v):
+        return ('agg', 'adt', 'Some', ('0',), (v,), 'std::option::Option')
+
+    def _callable(self, v):
+        """(kind, payload) for a value used as a callable: a closure of this crate, a fn item of this crate, or a modelled std fn item"""
+        c = strip_upd(v)
+        while c[0] in ('refval',) and len(c) > 1:
+            c = strip_upd(c[1])
+        if c[0] == 'agg' and c[1] == 'closure':
+            cb = self.facts.bodies.get(c[2])
+            if cb is not None and not cb.loops() and len(cb.blocks) <= 80:
+                return ('closure', (c, cb))
+            return None
+        if c[0] == 'c' and isinstance(c[1], tuple) and c[1][0] == 'fn':
+            path = c[1][1]
+            if re.match(r'^std::cmp::Ordering::(is_gt|is_lt|is_ge|is_le|is_eq|is_ne|reverse)$', path):
+                return ('ordfn', path.split('::')[-1])
+            cb = self.facts.bodies.get(path)
+            if cb is not None and not cb.loops() and len(cb.blocks) <= 80 and path not in CANON_PARAMS:
+                return ('fnitem', cb)
+        return None
+
+    def _ord_method(self, m, x):
+        """value of Ordering::m(x) for a known or symbolic ordering x"""
+        n = self._ord_name(x)
+        if n is not None:
+            v = {'Less': -1, 'Equal': 0, 'Greater': 1}[n]
+            if m == 'reverse':
+                return self._ord({-1: 'Greater', 0: 'Equal', 1: 'Less'}[v])
+            return ('c', {'is_gt': v > 0, 'is_lt': v < 0, 'is_ge': v >= 0, 'is_le': v <= 0, 'is_eq': v == 0, 'is_ne': v != 0}[m])
+        if m == 'reverse':
+            return None
+        op, ref = {'is_gt': ('eq', 'Greater'), 'is_lt': ('eq', 'Less'), 'is_ge': ('ne', 'Less'), 'is_le': ('ne', 'Greater'),
+                   'is_eq': ('eq', 'Equal'), 'is_ne': ('ne', 'Equal')}[m]
+        return ('op', op, x, self._ord(ref))
+
+    def _apply(self, st, fr, b, t, cal, args, k):
+        """run the callable `cal` on `args`, then k(state, result)"""
+        kind, pl = cal
+        if kind == 'ordfn':
+            a0 = args[0]
+            a0 = self.deref_ptr(st, fr, a0) if strip_upd(a0)[0] in ('ref', 'refval') else a0
+            r = self._ord_method(pl, a0)
+            if r is None:
+                r = ('pcall', 'std::cmp::Ordering::' + pl, (a0,), 0)
+            k(st, r)
+            return
+        if kind == 'closure':
+            cval, cb = pl
+            env = ('refval', cval) if cb.locals[1]['ty'].startswith('&') else cval
+            fargs = (env,) + tuple(args)
+        else:
+            cb = pl
+            fargs = tuple(args)
+        if cb.arg_count != len(fargs):
+            raise CannotAnalyse('arity of callable %s' % cb.id)
+        f2 = Frame(cb, fargs, fr.depth + 1)
+        f2.evdepth = fr.evdepth
+        f2.parent = fr
+        self._frames[f2.id] = f2
+        self._run(st, 0, f2, k)
+
+    def _cases(self, st, fr, b, t, v, kind):
+        """fork on an Option ('opt') or a bool ('bool'): list of (state, variant/bool, payload)"""
+        o = strip_upd(simplify(subst(v, st.path.conds)))
+        if kind == 'opt':
+            if o[0] == 'agg' and o[1] == 'adt' and o[5].endswith('Option'):
+                return [(st, o[2], o[4][0] if o[4] else None)]
+            dv = simplify(subst(('discr', v), st.path.conds))
+            if is_const(dv):
+                var = 'Some' if int(dv[1]) == 1 else 'None'
+                return [(st, var, simplify(('field', ('variant', v, 'Some'), '0')) if var == 'Some' else None)]
+            out = []
+            s2 = st.fork()
+            for (s_, var, cond) in ((s2, 'None', ('eq', 0)), (st, 'Some', ('eq', 1))):
+                dvv = ('discr', v)
+                for (vv, cc) in normalise_cond(dvv, cond):
+                    s_.path.conds.append((vv, cc))
+                s_.path.events.append({'k': 'branch', 'val': dvv, 'cond': cond, 'bb': b, 'line': t['line'], 'depth': fr.evdepth})
+                out.append((s_, var, simplify(('field', ('variant', v, 'Some'), '0')) if var == 'Some' else None))
+            return out
+        if is_const(o) and isinstance(o[1], (bool, int)):
+            return [(st, bool(o[1]), None)]
+        out = []
+        s2 = st.fork()
+        for (s_, val) in ((s2, False), (st, True)):
+            for (vv, cc) in normalise_cond(o, ('eq', val)):
+                s_.path.conds.append((vv, cc))
+            s_.path.events.append({'k': 'branch', 'val': o, 'cond': ('eq', val), 'bb': b, 'line': t['line'], 'depth': fr.evdepth})
+            out.append((s_, val, None))
+        return out
+
+    def std_model(self, st, fr, b, t, cont):
+        """Option / bool / Ordering combinators and comparisons of scalars: evaluated by forking on the unknown and running the
+        closures on the payload, so that `a.zip(b)`, `x.then(|| ..)`, `p.partial_cmp(q).filter(Ordering::is_ne).or_else(..)`,
+        `cmp(..).is_gt()` mean to the rules what the if / match ladder they replace means.  Returns True when handled."""
+        from facts import callee_name
+        if not self.inline or fr.depth >= 6 or t.get('target') is None:
+            return False
+        name = callee_name(t)
+        m = self.STD_MODELS.match(name)
+        if not m:
+            return False
+        meth = name.split('::')[-1]
+        args = tuple(self.operand(st, fr, a) for a in t['args'])
+        dest, target = t['dest'], t['target']
+
+        def done(st2, val):
+            self.store(st2, self.loc_of(st2, fr, dest), val)
+            self._run(st2, target, fr, cont)
+
+        def note():
+            st.path.events.append({'k': 'call', 'callee': name, 'decl': name, 'args': args, 'bb': b, 'line': t['line'], 'epoch': st.epoch,
+                                   'term': t, 'exp': t.get('exp', False), 'depth': fr.evdepth, 'in': fr.body.id, 'inlined': True,
+                                   'expanded': True, 'pure': True, 'ret': ('c', ('zst', 'expanded'))})
+
+        # ---- Ordering methods
+        if name.startswith('std::cmp::Ordering::'):
+            if meth in ('then', 'then_with'):
+                a = self._ord_name(args[0])
+                if a is None:
+                    return False
+                if meth == 'then_with' and self._callable(args[1]) is None:
+                    return False
+                note()
+                if a != 'Equal':
+                    done(st, self._ord(a))
+                elif meth == 'then':
+                    done(st, args[1])
+                else:
+                    self._apply(st, fr, b, t, self._callable(args[1]), (), done)
+                return True
+            r = self._ord_method(meth, args[0])
+            if r is None:
+                return False
+            note()
+            done(st, simplify(r))
+            return True
+        # ---- three-way comparison of scalars
+        if meth in ('partial_cmp', 'cmp'):
+            tys = (t['callee'].get('args') or [])
+            if not tys or tys[0] not in self.SCALAR_TYS or len(args) != 2:
+                return False
+            x, y = self.deref_ptr(st, fr, args[0]), self.deref_ptr(st, fr, args[1])
+            note()
+            s_lt, s_eq, s_gt = st.fork(), st.fork(), st
+            for (s_, conds, res) in ((s_lt, [(('op', 'lt', x, y), True)], 'Less'),
+                                     (s_eq, [(('op', 'lt', x, y), False), (('op', 'gt', x, y), False)], 'Equal'),
+                                     (s_gt, [(('op', 'lt', x, y), False), (('op', 'gt', x, y), True)], 'Greater')):
+                for (cv, val) in conds:
+                    s_.path.conds.append((cv, ('eq', val)))
+                    s_.path.events.append({'k': 'branch', 'val': cv, 'cond': ('eq', val), 'bb': b, 'line': t['line'], 'depth': fr.evdepth})
+                r = self._ord(res)
+                done(s_, self._some(r) if meth == 'partial_cmp' else r)
+            return True
+        # ---- bool::then / then_some
+        if name.startswith('std::bool::'):
+            if meth == 'then' and self._callable(args[1]) is None:
+                return False
+            note()
+            for (s_, val, _) in self._cases(st, fr, b, t, args[0], 'bool'):
+                if not val:
+                    done(s_, NONE)
+                elif meth == 'then_some':
+                    done(s_, self._some(args[1]))
+                else:
+                    self._apply(s_, fr, b, t, self._callable(args[1]), (), lambda s3, r: done(s3, self._some(r)))
+            return True
+        # ---- Option combinators
+        clos = {'map_or_else': (1, 2), 'filter': (1,), 'or_else': (1,), 'unwrap_or_else': (1,)}.get(meth, ())
+        for i in clos:
+            if i >= len(args) or self._callable(args[i]) is None:
+                return False
+        note()
+        if meth == 'zip':
+            for (s1, v1, p1) in self._cases(st, fr, b, t, args[0], 'opt'):
+                if v1 == 'None':
+                    done(s1, NONE)
+                    continue
+                for (s2, v2, p2) in self._cases(s1, fr, b, t, args[1], 'opt'):
+                    done(s2, NONE if v2 == 'None' else self._some(('agg', 'tuple', None, (), (p1, p2), 'tuple')))
+            return True
+        for (s_, var, pay) in self._cases(st, fr, b, t, args[0], 'opt'):
+            some = var == 'Some'
+            if meth == 'map_or_else':
+                if some:
+                    self._apply(s_, fr, b, t, self._callable(args[2]), (pay,), done)
+                else:
+                    self._apply(s_, fr, b, t, self._callable(args[1]), (), done)
+            elif meth == 'filter':
+                if not some:
+                    done(s_, NONE)
+                else:
+                    def after(s3, r, pay=pay):
+                        for (s4, val, _) in self._cases(s3, fr, b, t, r, 'bool'):
+                            done(s4, self._some(pay) if val else NONE)
+                    self._apply(s_, fr, b, t, self._callable(args[1]), (('refval', pay),), after)
+            elif meth == 'or_else':
+                if some:
+                    done(s_, self._some(pay))
+                else:
+                    self._apply(s_, fr, b, t, self._callable(args[1]), (), done)
+            elif meth == 'unwrap_or_else':
+                if some:
+                    done(s_, pay)
+                else:
+                    self._apply(s_, fr, b, t, self._callable(args[1]), (), done)
+            elif meth == 'or':
+                done(s_, self._some(pay) if some else args[1])
+            elif meth == 'and':
+                done(s_, args[1] if some else NONE)
+            elif meth == 'xor':
+                if some:
+                    for (s2, v2, _) in self._cases(s_, fr, b, t, args[1], 'opt'):
+                        done(s2, self._some(pay) if v2 == 'None' else NONE)
+                else:
+                    done(s_, args[1])
+            elif meth == 'unwrap_or':
+                done(s_, pay if some else args[1])
+        return True
+
     def option_try(self, st, fr, t):
         """`opt?`: <Option<T> as Try>::branch(opt) -> the option value, else None"""
         from facts import callee_name
@@ -843,7 +1095,7 @@ class Explorer:
         """Option::map / map_or / and_then / is_some_and / is_none_or applied with a closure of this crate that captures nothing
         (or takes its environment by value): (kind, option value, closure value, closure body, default, callee name)"""
         from facts import callee_name
-        if not self.inline or fr.depth >= 2 or t.get('target') is None:
+        if not self.inline or fr.depth >= 5 or t.get('target') is None:
             return None
         name = callee_name(t)
         m = self.OPTION_COMBINATORS.match(name)
@@ -875,7 +1127,7 @@ class Explorer:
         """a local, loop-free helper with branches that no rule knows by name: expanded path by path, so that extracting a
         helper function out of an anchor does not change what the rules see"""
         from facts import callee_name
-        if not self.inline or fr.depth >= (3 if self.expand else 2):
+        if not self.inline or fr.depth >= (4 if self.expand else 3):
             return None
         name = callee_name(t)
         cb = self.facts.bodies.get(name)
@@ -936,6 +1188,8 @@ class Explorer:
             elif k == 'assert':
                 self.record_assert(st, fr, b, t)
                 b = t['target']
+            elif k == 'call' and self.std_model(st, fr, b, t, cont):
+                return
             elif k == 'call' and self.option_try(st, fr, t) is not None:
                 opt = self.option_try(st, fr, t)
                 from facts import callee_name
@@ -1098,9 +1352,19 @@ def is_straight_line(body):
         elif k == 'call':
             if t['target'] is None:
                 return False
+            cd = (t.get('callee') or {}).get('def') or ''
+            if IMPLICIT_BRANCH.match(cd):
+                return False        # evaluated by forking (Option / bool / Ordering combinators, `?`, three-way comparisons)
             b = t['target']
         else:
             return False
+
+
+IMPLICIT_BRANCH = re.compile(
+    r'^(std::option::Option::<T>::(map|map_or|map_or_else|and_then|is_some_and|is_none_or|filter|or_else|unwrap_or_else|or|and|zip|unwrap_or|xor)|'
+    r'std::bool::<impl bool>::(then|then_some)|std::cmp::Ordering::(is_gt|is_lt|is_ge|is_le|is_eq|is_ne|reverse|then|then_with)|'
+    r'std::cmp::(PartialOrd|Ord)::(partial_cmp|cmp)|<f(32|64) as std::cmp::PartialOrd>::partial_cmp|'
+    r'<std::option::Option<T> as std::ops::Try>::branch)$')
 
 
 def strip_upd(v):
